@@ -267,6 +267,7 @@ PROFILES = {
     # threads that rebuild existing outputs (each moves an old output aside), often followed by a rollback
     'threadsrb': {'threads_rb': True},
     'threadsswap': {'threads_swap': True},
+    'threadsqdep': {'threads_qdep': True},
     # the same histories with a yield point at every executed line of the library's small shared data structures
     'threadsrbl': {'threads_rb': True, 'line_trace': ['file_backups.py', 'build_dirs.py', 'cache.py']},
     'threadsfl': {'threads_rb': True, 'line_trace': ['file_backups.py', 'build_dirs.py', 'cache.py'], 'rb_foreign': True},
@@ -748,6 +749,39 @@ def make_threads_swap(seed, profile):
             'steps': steps, 'combo': True}
 
 
+def make_threads_qdep(seed, profile):
+    """A thread asks about the very path another thread is building with a function that writes and then raises
+    (C04, D43).  The racing answer itself is not judged; the queries the root function makes after the threads
+    are joined are - the directories created only for the failed output must be gone again."""
+    rnd = random.Random('threadsqdep:%s' % seed)
+    P = rnd.choice([['n', 'm', 'f3'], ['q', 'r', 's', 'f5'], ['n', 'f1'], ['q', 'r', 'f6']])
+    kind = rnd.choice(['is_file', 'exists', 'read', 'get_size', 'is_file', 'list_dir'])
+    racing = {'s': 'q', 'kind': kind, 'p': P[:-1] if kind == 'list_dir' else P, 'nojudge': True}
+    if kind == 'read':
+        racing.update(cmp=rnd.choice(['METADATA', 'HASH']), how='binary')
+    failing = {'s': 'bf', 'p': P, 'f': 'fR', 'args': [0], 'cmp': rnd.choice(['METADATA', 'HASH']), 'catch': True}
+    branches = [failing, racing] if rnd.random() < 0.5 else [racing, failing]
+    after = []
+    for k in range(1, len(P)):
+        after.append({'s': 'q', 'kind': 'is_dir', 'p': P[:k]})
+        after.append({'s': 'q', 'kind': 'list_dir', 'p': P[:k]})
+    after += [{'s': 'q', 'kind': 'exists', 'p': P}, {'s': 'q', 'kind': 'list_dir', 'p': []},
+              {'s': 'q', 'kind': 'walk', 'p': [], 'td': True}]
+    rnd.shuffle(after)
+    steps = []
+    if rnd.random() < 0.4:
+        # the directories are left over from a previous build (stale, virtually removed) instead of new
+        steps.append({'op': 'build', 'name': 'B', 'vers': {}, 'root': [
+            {'s': 'bf', 'p': P[:-1] + ['old'], 'f': 'fW', 'args': [9], 'cmp': 'HASH', 'catch': True}, {'s': 'return'}]})
+    par = {'s': 'par', 'branches': branches, 'preempt': []}
+    steps.append({'op': 'build', 'name': 'B', 'vers': {}, 'root': [par] + after + [{'s': 'return'}]})
+    steps.append({'op': 'build', 'name': 'B', 'vers': {}, 'root': [dict(failing)] + [dict(q) for q in after] + [{'s': 'return'}]})
+    if rnd.random() < 0.6:
+        steps.append({'op': 'clean', 'name': 'B'})
+    return {'id': '%s-%d' % (profile, seed), 'cache': ['k'], 'universe': [], 'threads': True, 'prog': THREAD_PROGS,
+            'steps': steps, 'combo': True, 'qdep_triples': PROFILES[profile].get('qdep_triples', 600)}
+
+
 def make_threads_q(seed, profile):
     """Concurrent calls *and queries* (C09): thread functions look at paths whose answer cannot depend on the
     other threads - a foreign area nobody builds in, the stale directories of the previous build that nobody
@@ -1225,6 +1259,8 @@ def make_scenario(seed, profile='general'):
         return make_threads_rb(seed, profile)
     if P.get('threads_swap'):
         return make_threads_swap(seed, profile)
+    if P.get('threads_qdep'):
+        return make_threads_qdep(seed, profile)
     if P.get('threads_q'):
         return make_threads_q(seed, profile)
     if P.get('threads'):
